@@ -596,6 +596,20 @@ func (g *caseGen) audiences() {
 		case 3:
 			if probeBudget > 0 {
 				probeBudget--
+				if r.Chance(1, 3) { // an ordinary cohort: identical questions, the leader's SERVFAIL is shareable
+					q := g.relatedQ()
+					if c, ok := canonRaw(q.name); !ok || len(c) > 200 || q.name == "" {
+						q.name = "cohort.example.com."
+					} else if _, ok := wireOfPres(q.name); !ok {
+						q.name = "cohort.example.com."
+					}
+					q.t, q.c = vlib.Pick(r, []int{1, 28, 16}), 1
+					q.scope = vlib.Pick(r, []string{"-", "-", "4:cb007100/24", "4:0a010000/16"})
+					g.qs = append(g.qs, q)
+					g.out("fail cohort %d %d %s", g.step(), 2+r.Intn(4), q)
+					g.out("fail lookup %s %d", q, g.t)
+					return
+				}
 				g.out("fail probe %d 2 %s %s", g.t, o, q)
 			} else {
 				g.out("fail slookup %s %d", o, g.t)
